@@ -201,6 +201,54 @@ def precopy_cases(rnd, reps=3):
     return out
 
 
+def array_alias_shapes():
+    """Trees of array-backed streams only: a base (one array whose caller slice has spare capacity -- `cap` of an array node -- or an
+    all-array merge of 3 / 5 one-item arrays, whose slice grew by append) is Copy()'d and every copy is merged, as the FIRST source, with
+    its own array tail (one copy may stay a plain leaf).  -> list of (name, nodes-with-items)"""
+    out = []
+    for base in ("spare2", "spare5", "merge3", "merge5"):
+        for n in (2, 3):
+            for plain in (False, True):
+                tree = []
+                if base.startswith("spare"):
+                    tree.append(_node("array", cap=int(base[5:]), items=[11, 12, 13]))
+                else:
+                    m = int(base[5:])
+                    tree += [_node("array", items=[i * 10 + 1]) for i in range(1, m + 1)]
+                    tree.append(_node("merge", src=range(1, m + 1)))
+                top = len(tree)
+                tree.append(_node("copy", src=[top], n=n))
+                kids = list(range(top + 2, top + 2 + n))
+                tree += [_node("child", src=[top + 1], idx=i) for i in range(n)]
+                for j, kid in enumerate(kids):
+                    if plain and j == n - 1:
+                        continue
+                    t = len(tree) + 1
+                    tree.append(_node("array", items=[t * 10 + 1] if j % 2 == 0 else [t * 10 + 1, t * 10 + 2]))
+                    tree.append(_node("merge", src=[kid, t]))
+                out.append(("%s-copy%d%s" % (base, n, "-plain" if plain else ""), tree))
+    return out
+
+
+def array_alias_cases(rnd, reps=2):
+    """Directed cases on the array-only copy-then-merge trees: every tree is built completely (all merges exist) before the first Recv;
+    one sequential history (every leaf read to EOF, leaves in seeded order) and `reps` concurrent drivers per tree."""
+    out = []
+    for name, tree in array_alias_shapes():
+        used = {s for nd in tree for s in nd["src"]}
+        leaves = [i + 1 for i, nd in enumerate(tree) if nd["k"] != "copy" and (i + 1) not in used]
+        order = list(leaves)
+        rnd.shuffle(order)
+        ops = []
+        for a in order:
+            ops += [{"a": a, "op": "recv"}] * 8 + [{"a": a, "op": "close"}]
+        out.append({"id": "aa-%s-seq" % name, "mode": "seq", "shape": "arrayalias", "tree": tree, "ops": ops, "seed": 0, "pclose": 0})
+        for r in range(reps):
+            out.append({"id": "aa-%s-c%d" % (name, r), "mode": "conc", "shape": "arrayalias", "tree": tree, "ops": [],
+                        "seed": rnd.randrange(1 << 30), "pclose": 0})
+    return out
+
+
 # ------------------------------------------------------------------------------------------------ real runs
 
 _RACE = re.compile(r"WARNING: DATA RACE\n(.*?)\n==================", re.S)
